@@ -38,6 +38,7 @@ extern "C" {
   void sym_assume(bool c) { if (!c) { std::printf("ASSUME-FALSE\n"); std::exit(0); } }
   void sym_assert(bool c, const char *what) { std::printf("assert %s %d\n", what, c ? 1 : 0); if (!c) ++failures; }
   bool sym_same(double a, double b) { return std::memcmp(&a, &b, 8) == 0 || (a != a && b != b); }
+  bool sym_eq(double a, double b) { if (sym_same(a, b)) return true; double m = 1.0; if (a < 0 ? -a > m : a > m) m = a < 0 ? -a : a; if (b < 0 ? -b > m : b > m) m = b < 0 ? -b : b; double d = a - b; if (d < 0) d = -d; return d <= 1e-9 * m; }
   void sym_reach(const char *) {}
   void sym_out(const char *n, double v) { unsigned long long b; std::memcpy(&b, &v, 8); if (v != v) std::printf("out %s nan\n", n); else std::printf("out %s %016llx\n", n, b); }
   void sym_out_u64(const char *n, unsigned long v) { std::printf("out %s %lu\n", n, v); }
